@@ -665,7 +665,7 @@ Lemma tk_exec (brs : list branch) (ev : event) :
   (forall b t pre st, exec_block brs ev (fst (tk_block b t)) pre st = exec_block brs ev b pre st) /\
   (forall l t st, exec_stmts brs ev (fst (tk_stmts l t)) st = exec_stmts brs ev l st).
 Proof.
-  apply sbs_mutind; intros; cbn [tk_stmt tk_block tk_stmts]; try reflexivity.
+  apply FV.Proofs.StaticProofs.sbs_mutind2; intros; cbn [tk_stmt tk_block tk_stmts]; try reflexivity.
   - (* SFor *) destruct (tk_block b t) as [b' t'] eqn:E. cbn [fst]. rewrite !exec_for.
     destruct (eval ev st e) as [c|f|k]; cbn [rbind]; try reflexivity. destruct c; try reflexivity.
     assert (Hb : forall pre st0, exec_block brs ev b' pre st0 = exec_block brs ev b pre st0).
@@ -673,10 +673,11 @@ Proof.
     revert st. induction l as [|v r IH]; intro st; [reflexivity|]. rewrite !for_loop_cons, Hb.
     destruct (exec_block brs ev b [(x, ("auto", v))] st); cbn [rbind]; try reflexivity. apply IH.
   - (* SIf *) destruct els as [b2|].
-    + destruct (tk_block b t) as [b' t1] eqn:E1. cbn [fst]. rewrite !exec_if.
+    + destruct (tk_block b t) as [b' t1] eqn:E1. destruct (tk_block b2 t1) as [b2' t2] eqn:E2. cbn [fst]. rewrite !exec_if.
       destruct (eval ev st c) as [v|f|k]; cbn [rbind]; try reflexivity.
       destruct (truth v) as [tv|f|k]; cbn [rbind]; try reflexivity.
-      destruct tv; [|reflexivity]. specialize (H t [] st). rewrite E1 in H. exact H.
+      destruct tv; [specialize (H t [] st); rewrite E1 in H; exact H|].
+      cbn [FV.Proofs.StaticProofs.opt_P0] in H0. specialize (H0 t1 [] st). rewrite E2 in H0. exact H0.
     + destruct (tk_block b t) as [b' t1] eqn:E1. cbn [fst]. rewrite !exec_if.
       destruct (eval ev st c) as [v|f|k]; cbn [rbind]; try reflexivity.
       destruct (truth v) as [tv|f|k]; cbn [rbind]; try reflexivity.
